@@ -923,6 +923,10 @@ def _minimize(generation_result, algorithm=None):
                             test_suite_minimizer.removed_test_cases,
                         )
 
+            # The test-case visitors edit the test cases in place without telling the
+            # suite, so its cached coverage values would still be those from before
+            # the minimization: force them to be recomputed for the comparison.
+            generation_result.changed = True
             minimized_coverages = [
                 generation_result.get_coverage_for(fitness_function)
                 for fitness_function in fitness_functions
@@ -938,8 +942,11 @@ def _minimize(generation_result, algorithm=None):
                 # Mark the test suite as changed
                 generation_result.changed = True
                 # Verify that coverage is restored
-                restored_coverage = generation_result.get_coverage_for(fitness_functions)
-                _LOGGER.info("Coverage after restoration: %.4f", restored_coverage)
+                restored_coverages = [
+                    generation_result.get_coverage_for(fitness_function)
+                    for fitness_function in fitness_functions
+                ]
+                _LOGGER.info("Coverage after restoration: %s", restored_coverages)
 
         else:
             unused_primitives_removal = pp.TestCasePostProcessor([unused_vars_minimizer])
